@@ -150,6 +150,9 @@ def _arg(x):
         return "nan"
     if isinstance(x, (int, float, str, bool, type(None))):
         return x
+    what = getattr(x, "_what", None)   # an opaque settings value: named after where it was read from
+    if isinstance(what, str):
+        return CT(what)
     return type(x).__name__
 
 
